@@ -295,6 +295,59 @@ class C04(Check):
             steps.append({"op": op, "ret": r, "exc": exc, "pre": pre, "post": snaps})
         return obs, {"steps": steps, "init": init}
 
+
+    # -- faulting environment ---------------------------------------------
+    def extra_checks(self):
+        """Histories on stores whose on_state_change callback raises (an environment fault the quantifier does not
+        list, so 'no operation raises' is NOT demanded here): the ledger part of the property must survive it -
+        no call, whether it returns or raises, creates energy or drives a balance or the debt below zero."""
+        import random
+        from operon_ai.state import metabolism as M
+        rng = random.Random(f"C04:faulting:{self.seed}")
+        n_hist = 150 if self.tier == "quick" else 1500
+        calls = raised = 0
+        for case in self.gen_cases(rng, n_hist):
+            if len(case["stores"]) < 2:
+                continue
+            period = rng.choice([1, 1, 2, 3])
+            count = [0]
+
+            def cb(state, count=count, period=period):
+                count[0] += 1
+                if count[0] % period == 0:
+                    raise RuntimeError("state-change hook failed")
+            stores = _mk_stores(M, case["stores"])
+            for st in stores:
+                st.on_state_change = cb
+            _snap.mod = M
+            for k, op in enumerate(case["ops"]):
+                pre = [_snap(x) for x in stores]
+                exc = None
+                try:
+                    _apply(M, stores, op)
+                except Exception as e:  # noqa
+                    exc = f"{type(e).__name__}: {e}"
+                    raised += 1
+                calls += 1
+                post = [_snap(x) for x in stores]
+                nw = lambda ss: sum(x["atp"] + x["gtp"] + x["nadh"] - x["debt"] for x in ss)
+                neg = [x for x in post if min(x["atp"], x["gtp"], x["nadh"], x["debt"]) < 0]
+                what = sig = None
+                if neg:
+                    sig, what = "C04/negative-balance", f"a balance or the debt is negative after {op}: {neg[0]}"
+                elif op[0] not in ("regen", "reset", "interest") and nw(post) > nw(pre):
+                    sig = "C04/transfer-creates" if op[0] == "transfer" else "C04/creates-energy"
+                    what = (f"{op} {'raised ' + exc if exc else 'returned'} and total net worth went from {nw(pre)} to "
+                            f"{nw(post)} (stores have an on_state_change hook that raises every {period}. call)")
+                elif op[0] == "regen" and nw(post) > nw(pre) + op[2]:
+                    sig, what = "C04/creates-energy", f"{op} added more than its amount: {nw(pre)} -> {nw(post)}"
+                if sig:
+                    self.violations.append(Violation(sig, what, case={"stores": case["stores"], "ops": case["ops"][:k + 1],
+                                                                      "raising_hook_period": period}))
+                    self.extra_cov["faulting_environment"] = {"calls": calls, "calls_that_raised": raised}
+                    return
+        self.extra_cov["faulting_environment"] = {"calls": calls, "calls_that_raised": raised}
+
     # -- model input -------------------------------------------------------
     def coq_case(self, case):
         cfgs = []
